@@ -17,8 +17,9 @@
 //	     states[0] is the state after the constructor; with "steps" one state per call follows, else only the last.
 //	{"id": "...", "op": "default", "t": "<gopkg>.<GoType>"}      New<T>()
 //	  -> {"id", "known": true, "dump": DUMP, "json": ...}
-//	{"id": "...", "op": "convert", "t": "<gopkg>.<GoType>", "docs": ["<json>", ...]}     (converters: true)
-//	  -> {"id", "known": true, "conv": [{"s": "ok"|"decode-err"|"panic", "code": "<text returned by <T>Converter>",
+//	{"id": "...", "op": "convert", "t": "<gopkg>.<GoType>", "b": "<gopkg>.<GoBuilder>", "docs": ["<json>", ...]}     (converters: true)
+//	  -> {"id", "known": true, "conv": [{"s": "ok"|"decode-err"|"panic", "valid": Validate() of the decoded value,
+//	                                      "code": "<text returned by <Builder>Converter>",
 //	                                      "dump": DUMP of the decoded value, "json": ...}, ...]}
 //
 // DUMP (a Go value with everything JSON erases): {"k": "nil"} | {"k":"bool","v":b} | {"k":"int","v":"<decimal>"} |
@@ -33,6 +34,7 @@ import (
 	"fmt"
 	"os"
 	"reflect"
+	"runtime/debug"
 	"sort"
 	"strconv"
 	"strings"
@@ -66,6 +68,7 @@ type job struct {
 	Prog  *prog    `json:"prog"`
 	Steps bool     `json:"steps"`
 	T     string   `json:"t"`
+	B     string   `json:"b"`
 	Docs  []string `json:"docs"`
 }
 
@@ -76,17 +79,19 @@ type state struct {
 }
 
 type buildRes struct {
-	S     string          `json:"s"`
-	Paths []string        `json:"paths"`
-	Dump  any             `json:"dump"`
-	JSON  json.RawMessage `json:"json"`
+	S      string          `json:"s"`
+	Errors []string        `json:"errors"` // keys of builder.errors (nested builders that failed)
+	Paths  []string        `json:"paths"`
+	Dump   any             `json:"dump"`
+	JSON   json.RawMessage `json:"json"`
 }
 
 type convRes struct {
-	S    string          `json:"s"`
-	Code string          `json:"code"`
-	Dump any             `json:"dump"`
-	JSON json.RawMessage `json:"json"`
+	S     string          `json:"s"`
+	Valid string          `json:"valid"` // Validate() of the decoded value: "ok" | "err" | "panic"
+	Code  string          `json:"code"`
+	Dump  any             `json:"dump"`
+	JSON  json.RawMessage `json:"json"`
 }
 
 type result struct {
@@ -322,14 +327,6 @@ func construct(p prog) (reflect.Value, error) {
 	return b, nil
 }
 
-func unexported(b reflect.Value, name string) reflect.Value {
-	f := b.Elem().FieldByName(name)
-	if !f.IsValid() {
-		return f
-	}
-	return reflect.NewAt(f.Type(), unsafe.Pointer(f.UnsafeAddr())).Elem()
-}
-
 func snapshot(b reflect.Value) state {
 	st := state{Errors: []string{}}
 	in := unexported(b, "internal")
@@ -364,8 +361,22 @@ func errPaths(err error) []string {
 	return []string{"<not-a-BuildErrors>"}
 }
 
+func unexported(b reflect.Value, name string) reflect.Value {
+	f := b.Elem().FieldByName(name)
+	if !f.IsValid() {
+		return f
+	}
+	return reflect.NewAt(f.Type(), unsafe.Pointer(f.UnsafeAddr())).Elem()
+}
+
 func doBuild(b reflect.Value) (res *buildRes) {
-	res = &buildRes{}
+	res = &buildRes{Errors: []string{}}
+	if errs := unexported(b, "errors"); errs.IsValid() && errs.Kind() == reflect.Map {
+		for _, k := range errs.MapKeys() {
+			res.Errors = append(res.Errors, k.String())
+		}
+		sort.Strings(res.Errors)
+	}
 	defer func() {
 		if r := recover(); r != nil {
 			res.S = "panic"
@@ -449,7 +460,7 @@ func runDefault(j job) (res result) {
 func runConvert(j job) (res result) {
 	res = result{ID: j.ID, Known: true}
 	ctor, ok := types[j.T]
-	conv, ok2 := converters[j.T]
+	conv, ok2 := converters[j.B]
 	if !ok || !ok2 {
 		res.Known = false
 		return res
@@ -469,6 +480,21 @@ func runConvert(j job) (res result) {
 			}
 			c.Dump = dump(pv.Elem())
 			c.JSON = marshal(pv.Interface())
+			c.Valid = func() (s string) {
+				defer func() {
+					if r := recover(); r != nil {
+						s = "panic"
+					}
+				}()
+				m := pv.MethodByName("Validate")
+				if !m.IsValid() {
+					return ""
+				}
+				if out := m.Call(nil); !out[0].IsNil() {
+					return "err"
+				}
+				return "ok"
+			}()
 			out := conv.Call([]reflect.Value{pv.Elem()})
 			c.Code = out[0].String()
 			c.S = "ok"
@@ -479,6 +505,8 @@ func runConvert(j job) (res result) {
 }
 
 func main() {
+	// a constructor that recurses forever (mutually required objects) must die quickly
+	debug.SetMaxStack(32 << 20)
 	in := bufio.NewScanner(os.Stdin)
 	in.Buffer(make([]byte, 1<<20), 1<<28)
 	out := bufio.NewWriterSize(os.Stdout, 1<<20)
